@@ -304,9 +304,9 @@ def finish(merged: Result, tier: str) -> dict[str, Any]:
 
     need = [0x50, 0x51, 0x54, 0x59, 0x62, 0x67, 0x6E, 0x6F, 0x71, 0x7E]
     missing = [f"{k:02x}" for k in need if digest(k) not in kinds]
-    if missing:
+    if missing and not merged.violations:  # with violations the run fails anyway; a raising handler may hide a kind
         raise Broken(f"vacuous: positive replies of kinds {missing} never observed")
-    if len(states) < 50 or c.get("transitions", 0) < 100000 or c.get("positive_replies", 0) < 1000:
+    if not merged.violations and (len(states) < 50 or c.get("transitions", 0) < 100000 or c.get("positive_replies", 0) < 1000):
         raise Broken("vacuous: too few states / transitions / positive replies")
     closed = succ <= states
     return {
